@@ -484,5 +484,9 @@ class Base:
 
     def get_uf(self, name, dom, rng):
         if name not in self.uf:
-            self.uf[name] = z3.Function(name, *dom, rng)
+            if not dom:
+                c = z3.Const(name, rng)
+                self.uf[name] = lambda: c
+            else:
+                self.uf[name] = z3.Function(name, *dom, rng)
         return self.uf[name]
